@@ -40,6 +40,8 @@ type LifeObs struct {
 	ClosedVbs      []uint16 // CloseStream calls during the teardown
 	InFlightBefore bool
 	SecondClose    bool
+	Gated          bool // a document was waiting at the rollback-mitigation gate when Close() arrived
+	GateStuck      bool // ... and was still waiting a second after Start() returned
 }
 
 func NewSDriverDcp(cfg SCfg, initial map[uint16]SDoc, auto, health bool, numVb int) *SDriver {
@@ -61,6 +63,7 @@ func NewSDriverDcp(cfg SCfg, initial map[uint16]SDoc, auto, health bool, numVb i
 	c.API.Disabled = true
 	c.HealthCheck.Disabled = !health
 	c.HealthCheck.Interval = 5 * time.Millisecond
+	c.RollbackMitigation.Interval = 25 * time.Millisecond // the gate of an observer polls five times per interval
 	c.Dcp.Group.Membership.Type = membership.StaticMembershipType
 	c.Dcp.Group.Membership.TotalMembers = 1
 	c.Dcp.Group.Membership.MemberNumber = 1
@@ -167,6 +170,22 @@ func (d *SDriver) execShutdown(op SOp, idx int) []SOut {
 		sort.Slice(lo.OpenVbs, func(a, b int) bool { return lo.OpenVbs[a] < lo.OpenVbs[b] })
 	}
 	lo.PingsBefore, _, _, _ = d.Client.Counts()
+	var gateDone chan struct{}
+	if op.Gate != nil {
+		// a document arrives and waits at the rollback-mitigation gate of its observer (nothing is persisted yet)
+		if ob := d.Client.Observer(op.GateVb); ob != nil {
+			gateDone = make(chan struct{})
+			d.cfg.RollbackMitigation.Disabled = false
+			go func() {
+				defer close(gateDone)
+				defer func() { _ = recover() }()
+				d.deliver(ob, op.GateVb, op.Gate)
+			}()
+			time.Sleep(15 * time.Millisecond)
+			d.cfg.RollbackMitigation.Disabled = true
+			lo.Gated = true
+		}
+	}
 	d.Hand.Take()
 	d.Client.TakeCloses()
 	t0 := d.Trace.Len()
@@ -233,13 +252,20 @@ func (d *SDriver) execShutdown(op SOp, idx int) []SOut {
 	}
 	// a quiet period: nothing of the library may still be running
 	time.Sleep(40 * time.Millisecond)
+	if gateDone != nil {
+		select {
+		case <-gateDone:
+		case <-time.After(time.Second):
+			lo.GateStuck = true
+		}
+	}
 	lo.PingsLater, _, _, lo.OpensLater = d.Client.Counts()
 	lo.SavesLater = d.Store.SaveCount()
 	lo.ConsumedLater = d.Cons.Count()
 	d.Hand.Take()
 	d.Client.TakeCloses()
 	d.Client.TakeOpens()
-	d.Cons.Take()
+	d.gatedOuts = d.collectConsumes()
 	return outs
 }
 
